@@ -119,15 +119,15 @@ Section Compare.
   (** col OP $n with an unqualified column, over base tables: sqlc gives the
       parameter the type of exactly the column the reference semantics resolves
       the name to - and rejects exactly when that resolution fails *)
-  Theorem compare_refines sc aliases dt names r n lref rest key :
+  Theorem compare_refines sc bare aliases dt names r n lref rest key :
     spec_scope c rvs = POk sc ->
     pr_parent r = PNode n -> kind_of n = "A_Expr" ->
     search (is_kind "ColumnRef") (kid "Lexpr" n) = lref :: rest ->
     string_items (kid "Fields" lref) = [key] ->
     match resolve_unqualified [sc] key with
     | POk x => exists t col, src_col x = Some col /\
-                 resolve_one e tables aliases dt names r = Ok [param_of_column names (ref_number r) key t col]
-    | PErr _ => exists m, resolve_one e tables aliases dt names r = Err m
+                 resolve_one e tables bare aliases dt names r = Ok [param_of_column names (ref_number r) key t col]
+    | PErr _ => exists m, resolve_one e tables bare aliases dt names r = Err m
     end.
   Proof.
     intros Hs Hp Hk Hl Hf.
@@ -140,16 +140,16 @@ Section Compare.
     cbn [resolve_unqualified].
     destruct (cols_named sc key) as [|x [|x2 A]] eqn:Ec.
     - destruct (hits_of c tables tables key) as [|h hs] eqn:Eh; [|discriminate].
-      rewrite (compare_unqualified_missing e tables aliases dt names r n lref rest key Hp Hk Hl Hf Eh).
+      rewrite (compare_unqualified_missing e tables bare aliases dt names r n lref rest key Hp Hk Hl Hf Eh).
       unfold err_at. destruct (loc_of lref =? 0)%Z; eauto.
     - inversion Hall as [|? ? [col Hcol] _]; subst. cbn [flat_map] in Hm. rewrite Hcol in Hm. cbn [app] in Hm.
       destruct (hits_of c tables tables key) as [|[t col'] [|h2 hs]] eqn:Eh; try discriminate.
       injection Hm as Hm. subst col'. exists t, col. split; [exact Hcol|].
-      exact (compare_unqualified e tables aliases dt names r n lref rest key t col Hp Hk Hl Hf Eh).
+      exact (compare_unqualified e tables bare aliases dt names r n lref rest key t col Hp Hk Hl Hf Eh).
     - inversion Hall as [|? ? [col Hcol] Hall']; subst. inversion Hall' as [|? ? [col2 Hcol2] _]; subst.
       cbn [flat_map] in Hm. rewrite Hcol, Hcol2 in Hm. cbn [app] in Hm.
       destruct (hits_of c tables tables key) as [|h1 [|h2 hs]] eqn:Eh; try discriminate.
-      rewrite (compare_unqualified_ambiguous e tables aliases dt names r n lref rest key h1 h2 hs Hp Hk Hl Hf Eh).
+      rewrite (compare_unqualified_ambiguous e tables bare aliases dt names r n lref rest key h1 h2 hs Hp Hk Hl Hf Eh).
       unfold err_at. destruct (loc_of lref =? 0)%Z; eauto.
   Qed.
 End Compare.
